@@ -308,6 +308,59 @@ def run_walk(seed, steps):
     return out
 
 
+MARK = b'SECRET-MARKER-OCTETS-THAT-MUST-NOT-LEAVE'
+
+
+def _pkt(tag, body):
+    return bytes([0xC0 | tag, 0xFF]) + len(body).to_bytes(4, 'big') + body
+
+
+def run_foreign(kind):
+    """secret key blobs as other implementations write them, with material PGPy cannot interpret: the public key derived from the loaded key
+    (and from its copy, and after the private key was exported and loaded again) holds public packets only and none of the marker octets"""
+    problems = []
+    case = {'kind': 'foreign-secret-blob', 'what': kind}
+    b = Build('ed25519', T0, slot=0)
+    b.add_uid('U0', dt(0), flags=FLAGSETS[0], prefs=PREFSETS[0])
+    blob = bytes(b.k)
+    if kind == 'experimental packet (tag 60) after the key':
+        blob += _pkt(60, b'private extension ' + MARK)
+    elif kind == 'version 5 secret subkey packet after the key':
+        blob += _pkt(7, bytes([5]) + (1700000000).to_bytes(4, 'big') + bytes([22]) + b'\x00\x00\x00\x2a' + MARK + bytes(40))
+    elif kind == 'secret key of an unimplemented algorithm (X9.42 DH, id 21)':
+        mpi = lambda v: v.bit_length().to_bytes(2, 'big') + v.to_bytes((v.bit_length() + 7) // 8, 'big')
+        secret = int.from_bytes(MARK, 'big')
+        body = bytes([4]) + (1700000000).to_bytes(4, 'big') + bytes([21]) + mpi((1 << 1023) | 12345) + mpi(2) + mpi((1 << 1000) | 999) + bytes([0]) + mpi(secret)
+        body += (sum(mpi(secret)) % 65536).to_bytes(2, 'big')
+        blob = _pkt(5, body) + _pkt(13, b'DH key <dh@x>')
+    try:
+        loaded = pgpy.PGPKey.from_blob(blob)[0]
+    except Exception as ex:
+        return [{'case': case, 'nontrivial': True, 'n': 1, 'secrets': 1, 'problems': []}]       # refusing such a blob is fine
+    objs = [('the loaded key', loaded)]
+    try:
+        objs.append(('a copy of the loaded key', copy.copy(loaded)))
+        objs.append(('the key exported and loaded again', pgpy.PGPKey.from_blob(bytes(loaded))[0]))
+    except Exception as ex:
+        problems.append('copy / re-import of the loaded key raised %s: %s' % (type(ex).__name__, str(ex)[:60]))
+    for label, k in objs:
+        try:
+            pub = k.pubkey if not k.is_public else k
+            for form, octets in (('binary', bytes(pub)), ('armored', dearmor(str(pub))[1])):
+                tags = sorted(set(t for t, _, _ in indep.packets(octets)) - PUBLIC_TAGS)
+                if tags:
+                    problems.append('public key derived from %s (%s): packet tags %s' % (label, form, tags))
+                if MARK in octets:
+                    problems.append('public key derived from %s (%s): contains octets of the secret / private material' % (label, form))
+        except Exception as ex:
+            problems.append('public key derived from %s: %s: %s' % (label, type(ex).__name__, str(ex)[:60]))
+    return [{'case': case, 'nontrivial': True, 'n': len(objs), 'secrets': 1, 'problems': problems[:4]}]
+
+
+FOREIGN_KINDS = ['experimental packet (tag 60) after the key', 'version 5 secret subkey packet after the key',
+                 'secret key of an unimplemented algorithm (X9.42 DH, id 21)']
+
+
 def _worker(args):
     warnings.simplefilter('ignore')
     import logging
@@ -319,6 +372,8 @@ def _worker(args):
         try:
             if j[0] == 'shape':
                 res += run_shape(j[1])
+            elif j[0] == 'foreign':
+                res += run_foreign(j[1])
             else:
                 res += run_walk(j[1], steps)
         except Exception as ex:
@@ -364,7 +419,7 @@ def component(tier='quick', seed=0, known=()):
                             descs.append(d)
     rnd = random.Random(seed)
     nwalks, steps = (32, 16) if tier == 'quick' else (300, 25)
-    jobs = [('shape', d) for d in descs] + [('walk', rnd.randrange(1 << 30)) for _ in range(nwalks)]
+    jobs = [('shape', d) for d in descs] + [('walk', rnd.randrange(1 << 30)) for _ in range(nwalks)] + [('foreign', k) for k in FOREIGN_KINDS]
     jobs.sort(key=lambda j: 0 if j[0] == 'shape' and (j[1][0] in ('rsa2048', 'dsa2048') or 'rsa2048' in SUBCONFIGS[j[1][1]]) else 1)
     nproc = min(16, os.cpu_count() or 1)
     nchunks = nproc * 4
